@@ -84,6 +84,14 @@ func runC12(c *Ctx) {
 		if len(k.items) == 0 {
 			continue
 		}
+		encName := "storage.(*btreeNode).encodeLeaf"
+		if k.name == "internal" {
+			encName = "storage.(*btreeNode).encodeInternal"
+		}
+		if ef := w.F(encName); ef != nil && w.opaque(ef) != "" {
+			c.Undecided("C12.2", k.name+"|layout", "not decided, because %s %s: the page layout is not fully visible to the grammar extraction", encName, w.opaque(ef))
+			continue
+		}
 		hdr, loops := fixedBytes(k.items)
 		declHdr, okH := storageConst(w, k.hdrConst)
 		declCell, okC := storageConst(w, k.cellConst)
@@ -371,8 +379,18 @@ func c02Codecs(c *Ctx, rule string) {
 		names = append(names, n)
 	}
 	sortStrings(names)
+	opaqueCodec := ""
+	for _, fn := range []string{"storage.(*fileStore).save", "storage.(*fileStore).open"} {
+		if f := w.F(fn); f != nil && w.opaque(f) != "" {
+			opaqueCodec = fn + " " + w.opaque(f)
+		}
+	}
 	for _, n := range names {
 		key := "storage.fileStore|header-has|" + n
+		if !inHeader[n] && opaqueCodec != "" {
+			c.Undecided(rule, key, "not decided, because %s: which fields reach the header is not visible to the grammar extraction", opaqueCodec)
+			continue
+		}
 		c.Check(inHeader[n], rule, key, changed[n], "counter "+n+" is saved in the file header", "fileStore."+n+" is advanced by statements but is not written to the file header: its value is lost at restart")
 	}
 	if len(names) < 3 {
